@@ -72,6 +72,7 @@ pub fn child(f: CmdFn) {
 }
 
 const MARK: &str = "@@VERIF-RESULT@@";
+const MAX_TIMEOUTS: usize = 12;
 thread_local! {
     static LAST_PANIC: std::cell::RefCell<Option<(String,String)>> = std::cell::RefCell::new(None);
 }
@@ -87,7 +88,17 @@ pub fn parent(cmd: &str, infile: &str, outfile: &str, timeout_ms: u64) {
     let exe = std::env::current_exe().unwrap();
     let mut next = 0usize;
     let mut restarts = 0usize;
+    let mut timeouts = 0usize;
     while next < cases.len() {
+        // A hang that affects thousands of cases would cost `timeout_ms` each: after MAX_TIMEOUTS the remaining
+        // cases are not run and say so ("not-run" is not a verdict about the code; the timeouts already are).
+        if timeouts >= MAX_TIMEOUTS {
+            for c in &cases[next..] {
+                let id = serde_json::from_str::<Value>(c).ok().and_then(|v| v.get("id").cloned()).unwrap_or(Value::Null);
+                writeln!(out, "{}", json!({"outcome":"not-run","id":id,"msg":format!("not run: {timeouts} earlier cases of this batch timed out")})).unwrap();
+            }
+            break;
+        }
         let mut ch = Command::new(&exe)
             .arg("child")
             .arg(cmd)
@@ -167,6 +178,9 @@ pub fn parent(cmd: &str, infile: &str, outfile: &str, timeout_ms: u64) {
                 .unwrap();
                 next += 1;
                 restarts += 1;
+                if kind == "timeout" {
+                    timeouts += 1;
+                }
             }
         }
     }
